@@ -56,12 +56,13 @@ Record st := {
   bcast : option exc;               (* the error the worker broadcast to the listeners, if it did *)
   eof_seen : bool;                  (* the worker read end-of-file (the peer closed) *)
   lst : bool;                       (* the session's RPCReplyListener exists (created by the first RPC.__init__) *)
-  skipok : bool                     (* no reply listener existed when the error broadcast started *)
+  skipok : bool;                    (* no reply listener existed when the error broadcast started *)
+  rlog : list N                     (* ghost: message-ids of the inbound messages the reply listener looked up *)
 }.
 
 Definition init (q : bool) : st :=
   {| reqs := []; table := []; outq := []; nq := []; connected := true; closing := false; pc := WIdle;
-     qualify := q; wrote := []; deliver_log := []; recv_notifs := []; taken := []; bcast := None; eof_seen := false; lst := false; skipok := false |}.
+     qualify := q; wrote := []; deliver_log := []; recv_notifs := []; taken := []; bcast := None; eof_seen := false; lst := false; skipok := false; rlog := [] |}.
 
 Inductive label :=
 | LReg (rid : nat) (id : N)
@@ -137,61 +138,67 @@ Definition wait_outcome (r : req) (flag : bool) : outcome :=
 Definition with_reqs (s : st) (x : list req) : st :=
   {| reqs := x; table := table s; outq := outq s; nq := nq s; connected := connected s; closing := closing s;
      pc := pc s; qualify := qualify s; wrote := wrote s; deliver_log := deliver_log s;
-     recv_notifs := recv_notifs s; taken := taken s; bcast := bcast s; eof_seen := eof_seen s; lst := lst s; skipok := skipok s |}.
+     recv_notifs := recv_notifs s; taken := taken s; bcast := bcast s; eof_seen := eof_seen s; lst := lst s; skipok := skipok s; rlog := rlog s |}.
 Definition with_table (s : st) (x : list (N * nat)) : st :=
   {| reqs := reqs s; table := x; outq := outq s; nq := nq s; connected := connected s; closing := closing s;
      pc := pc s; qualify := qualify s; wrote := wrote s; deliver_log := deliver_log s;
-     recv_notifs := recv_notifs s; taken := taken s; bcast := bcast s; eof_seen := eof_seen s; lst := lst s; skipok := skipok s |}.
+     recv_notifs := recv_notifs s; taken := taken s; bcast := bcast s; eof_seen := eof_seen s; lst := lst s; skipok := skipok s; rlog := rlog s |}.
 Definition with_pc (s : st) (x : wpc) : st :=
   {| reqs := reqs s; table := table s; outq := outq s; nq := nq s; connected := connected s; closing := closing s;
      pc := x; qualify := qualify s; wrote := wrote s; deliver_log := deliver_log s;
-     recv_notifs := recv_notifs s; taken := taken s; bcast := bcast s; eof_seen := eof_seen s; lst := lst s; skipok := skipok s |}.
+     recv_notifs := recv_notifs s; taken := taken s; bcast := bcast s; eof_seen := eof_seen s; lst := lst s; skipok := skipok s; rlog := rlog s |}.
 Definition with_outq (s : st) (x : list nat) : st :=
   {| reqs := reqs s; table := table s; outq := x; nq := nq s; connected := connected s; closing := closing s;
      pc := pc s; qualify := qualify s; wrote := wrote s; deliver_log := deliver_log s;
-     recv_notifs := recv_notifs s; taken := taken s; bcast := bcast s; eof_seen := eof_seen s; lst := lst s; skipok := skipok s |}.
+     recv_notifs := recv_notifs s; taken := taken s; bcast := bcast s; eof_seen := eof_seen s; lst := lst s; skipok := skipok s; rlog := rlog s |}.
 Definition with_nq (s : st) (x : list N) : st :=
   {| reqs := reqs s; table := table s; outq := outq s; nq := x; connected := connected s; closing := closing s;
      pc := pc s; qualify := qualify s; wrote := wrote s; deliver_log := deliver_log s;
-     recv_notifs := recv_notifs s; taken := taken s; bcast := bcast s; eof_seen := eof_seen s; lst := lst s; skipok := skipok s |}.
+     recv_notifs := recv_notifs s; taken := taken s; bcast := bcast s; eof_seen := eof_seen s; lst := lst s; skipok := skipok s; rlog := rlog s |}.
 Definition with_closed (s : st) : st :=
   {| reqs := reqs s; table := table s; outq := outq s; nq := nq s; connected := false; closing := true;
      pc := pc s; qualify := qualify s; wrote := wrote s; deliver_log := deliver_log s;
-     recv_notifs := recv_notifs s; taken := taken s; bcast := bcast s; eof_seen := eof_seen s; lst := lst s; skipok := skipok s |}.
+     recv_notifs := recv_notifs s; taken := taken s; bcast := bcast s; eof_seen := eof_seen s; lst := lst s; skipok := skipok s; rlog := rlog s |}.
 Definition with_wrote (s : st) (x : list nat) : st :=
   {| reqs := reqs s; table := table s; outq := outq s; nq := nq s; connected := connected s; closing := closing s;
      pc := pc s; qualify := qualify s; wrote := x; deliver_log := deliver_log s;
-     recv_notifs := recv_notifs s; taken := taken s; bcast := bcast s; eof_seen := eof_seen s; lst := lst s; skipok := skipok s |}.
+     recv_notifs := recv_notifs s; taken := taken s; bcast := bcast s; eof_seen := eof_seen s; lst := lst s; skipok := skipok s; rlog := rlog s |}.
 Definition with_dlog (s : st) (x : list nat) : st :=
   {| reqs := reqs s; table := table s; outq := outq s; nq := nq s; connected := connected s; closing := closing s;
      pc := pc s; qualify := qualify s; wrote := wrote s; deliver_log := x;
-     recv_notifs := recv_notifs s; taken := taken s; bcast := bcast s; eof_seen := eof_seen s; lst := lst s; skipok := skipok s |}.
+     recv_notifs := recv_notifs s; taken := taken s; bcast := bcast s; eof_seen := eof_seen s; lst := lst s; skipok := skipok s; rlog := rlog s |}.
 Definition with_rnot (s : st) (x : list N) : st :=
   {| reqs := reqs s; table := table s; outq := outq s; nq := nq s; connected := connected s; closing := closing s;
      pc := pc s; qualify := qualify s; wrote := wrote s; deliver_log := deliver_log s;
-     recv_notifs := x; taken := taken s; bcast := bcast s; eof_seen := eof_seen s; lst := lst s; skipok := skipok s |}.
+     recv_notifs := x; taken := taken s; bcast := bcast s; eof_seen := eof_seen s; lst := lst s; skipok := skipok s; rlog := rlog s |}.
 Definition with_taken (s : st) (x : list N) : st :=
   {| reqs := reqs s; table := table s; outq := outq s; nq := nq s; connected := connected s; closing := closing s;
      pc := pc s; qualify := qualify s; wrote := wrote s; deliver_log := deliver_log s;
-     recv_notifs := recv_notifs s; taken := x; bcast := bcast s; eof_seen := eof_seen s; lst := lst s; skipok := skipok s |}.
+     recv_notifs := recv_notifs s; taken := x; bcast := bcast s; eof_seen := eof_seen s; lst := lst s; skipok := skipok s; rlog := rlog s |}.
 
 Definition with_bcast (s : st) (x : option exc) : st :=
   {| reqs := reqs s; table := table s; outq := outq s; nq := nq s; connected := connected s; closing := closing s;
      pc := pc s; qualify := qualify s; wrote := wrote s; deliver_log := deliver_log s;
-     recv_notifs := recv_notifs s; taken := taken s; bcast := x; eof_seen := eof_seen s; lst := lst s; skipok := skipok s |}.
+     recv_notifs := recv_notifs s; taken := taken s; bcast := x; eof_seen := eof_seen s; lst := lst s; skipok := skipok s; rlog := rlog s |}.
 Definition with_eof (s : st) : st :=
   {| reqs := reqs s; table := table s; outq := outq s; nq := nq s; connected := connected s; closing := closing s;
      pc := pc s; qualify := qualify s; wrote := wrote s; deliver_log := deliver_log s;
-     recv_notifs := recv_notifs s; taken := taken s; bcast := bcast s; eof_seen := true; lst := lst s; skipok := skipok s |}.
+     recv_notifs := recv_notifs s; taken := taken s; bcast := bcast s; eof_seen := true; lst := lst s; skipok := skipok s; rlog := rlog s |}.
 
 Definition with_lst (s : st) : st :=
   {| reqs := reqs s; table := table s; outq := outq s; nq := nq s; connected := connected s; closing := closing s;
      pc := pc s; qualify := qualify s; wrote := wrote s; deliver_log := deliver_log s;
-     recv_notifs := recv_notifs s; taken := taken s; bcast := bcast s; eof_seen := eof_seen s; lst := true; skipok := skipok s |}.
+     recv_notifs := recv_notifs s; taken := taken s; bcast := bcast s; eof_seen := eof_seen s; lst := true; skipok := skipok s; rlog := rlog s |}.
 Definition with_skipok (s : st) (x : bool) : st :=
   {| reqs := reqs s; table := table s; outq := outq s; nq := nq s; connected := connected s; closing := closing s;
      pc := pc s; qualify := qualify s; wrote := wrote s; deliver_log := deliver_log s;
-     recv_notifs := recv_notifs s; taken := taken s; bcast := bcast s; eof_seen := eof_seen s; lst := lst s; skipok := x |}.
+     recv_notifs := recv_notifs s; taken := taken s; bcast := bcast s; eof_seen := eof_seen s; lst := lst s; skipok := x; rlog := rlog s |}.
+
+Definition with_rlog (s : st) (x : list N) : st :=
+  {| reqs := reqs s; table := table s; outq := outq s; nq := nq s; connected := connected s; closing := closing s;
+     pc := pc s; qualify := qualify s; wrote := wrote s; deliver_log := deliver_log s;
+     recv_notifs := recv_notifs s; taken := taken s; bcast := bcast s; eof_seen := eof_seen s; lst := lst s; skipok := skipok s;
+     rlog := x |}.
 
 Definition is_idle (p : wpc) : bool := match p with WIdle => true | _ => false end.
 (* exception classes that are TransportErrors: SessionCloseError, TransportError, NetconfFramingError *)
@@ -244,9 +251,9 @@ Definition step (s : st) (l : label) : option st :=
         if N.eqb kind 2 then Some (with_pc (with_rnot s (recv_notifs s ++ [arg])) (WNotif arg))
         else if N.eqb kind 5 then Some s        (* payload whose root cannot be parsed: logged and dropped, no listener called *)
         else if negb (lst s) then (if N.leb kind 4 then Some s else None)    (* no reply listener yet: ignored *)
-        else if N.eqb kind 0 then Some (with_pc s (WLookup arg))
+        else if N.eqb kind 0 then Some (with_pc (with_rlog s (rlog s ++ [arg])) (WLookup arg))
         else if N.eqb kind 1 then Some (with_pc s (WRaise 2))
-        else if N.eqb kind 3 then Some (if qualify s then s else with_pc s (WLookup arg))
+        else if N.eqb kind 3 then Some (if qualify s then s else with_pc (with_rlog s (rlog s ++ [arg])) (WLookup arg))
         else if N.eqb kind 4 then Some (if qualify s then s else with_pc s (WRaise 2))
         else None
       else None
